@@ -1,9 +1,11 @@
 ----------------------------- MODULE MC_Sni -----------------------------
 (* Model-checking instance of Sni.tla: variant selection and generation helpers. *)
-EXTENDS Sni, Json
+EXTENDS Sni, Json, IOUtils, SequencesExt
 
 MCIntended == "intended"
 MCAsBuilt  == "asbuilt"
+MCShared   == "shared"
+MCTaken    == "taken"
 
 \* _gen: one JSON line per vector with the expected outcome (intended), the as-built prediction,
 \* and whether the property text constrains the outcome at all.
@@ -16,4 +18,17 @@ Gen == st = "arrived" => PrintT(<<"VEC", ToJson(GenLine(vec))>>)
 \* (run with -continue: one BAD line per vector)
 InvC20Report == st = "done" =>
     (C20(vec, out) \/ ~PrintT(<<"BAD", ToJson([v |-> vec, o |-> out, clause |-> FailedClause(vec, out)])>>))
+
+\* chain binding: every maximal behaviour of the connection machine x every scenario, with the request
+\* statuses the model expects after each event, written as ndjson to the file named by GEN_OUT
+ChainLine(p) == [beh |-> p[1], scn |-> [ver |-> p[2].ver, sni |-> p[2].sni, cls |-> [r \in Reqs |-> p[2].cls[r]]],
+                 trace |-> StatusTrace(ConnInit0, p[1])]
+ChainSeq == LET s == SetToSeq(Behaviours(ConnInit0) \X Scenarios) IN [i \in 1..Len(s) |-> ChainLine(s[i])]
+ChainGenInit == /\ ndJsonSerialize(IOEnv.GEN_OUT, ChainSeq)
+                /\ PrintT(<<"CHAINGEN", Cardinality(Behaviours(ConnInit0)), Cardinality(Scenarios)>>)
+                /\ vec = "gen" /\ st = "gen" /\ out = "gen"
+ChainGenNext == UNCHANGED vars
+
+\* report form of ConnInvInfo for the refuted variant (run with -continue)
+ConnInvReport == ConnInvC20 \/ ~PrintT(<<"CONNBAD", ToJson([scn |-> vec, rq |-> out.rq])>>)
 =============================================================================
